@@ -14,6 +14,7 @@ F = 'photutils/detection/peakfinder.py::find_peaks'
 def register(reg):
     register_brightest(reg)
     register_bounds(reg)
+    register_finite(reg)
     img = ('arr', 2, 'real', 'nonempty')
     box = '(0, data.shape[0]), (0, data.shape[1])'
     inside = ('j >= border_width[0] and j < data.shape[0] - border_width[0] and '
@@ -131,3 +132,64 @@ def register_bounds(reg):
                     ('mask &= (newcat.peak <= newcat.peakmax)', 'mask |= (newcat.peak <= newcat.peakmax)')]
                    if tag == 'peakmax' else []),
             ))
+
+
+def register_finite(reg):
+    """C14 "finite values": StarFinder's apply_filters keeps a row only if every reported column
+    of that row is finite (a non-finite centroid, width, roundness, angle, peak or flux is a
+    non-detection) -- the row mask built by the loop over the column names."""
+    cols = ('xcentroid', 'ycentroid', 'fwhm', 'roundness', 'pa', 'max_value', 'flux')
+    rec = '_StarFinderCatalog@finite'
+    reg.record('_StarFinderCatalog', {})
+    reg.record(rec, {c: ('arr', 1, 'real', 'nonfinite') for c in cols}, bases=('_StarFinderCatalog',))
+    n = 'self.flux.shape[0]'
+    reg.add(Contract(
+        target='photutils/detection/starfinder.py::_StarFinderCatalog.__len__', props=['C14'],
+        kind='method', params={'self': rec}, ensures=[('rows', f'result == {n}')],
+        returns='nat', assumed=True,
+        note='len(catalog) is the number of rows (all column arrays have that length)',
+    ))
+    reg.add(Contract(
+        target='photutils/detection/starfinder.py::_StarFinderCatalog.apply_filters', props=['C14'],
+        kind='method', tag='finite-rows', block=('attrs', 'mask', 1),
+        params={'self': rec},
+        requires=[f'self.{c}.shape[0] == {n}' for c in cols],
+        ensures=[('one-flag-per-row', f'mask.shape == ({n},)'),
+                 ('kept-iff-every-reported-column-is-finite',
+                  'forall(lambda k: iff(mask[k], '
+                  + ' and '.join(f'isfinite_at(self.{c}, k)' for c in cols) + f'), (0, {n}))')],
+        mutants=[("'max_value', 'flux')", "'max_value')"),
+                 ('mask &= np.isfinite(getattr(self, attr))', 'mask |= np.isfinite(getattr(self, attr))'),
+                 ("attrs = ('xcentroid', 'ycentroid', 'fwhm', 'roundness', 'pa',",
+                  "attrs = ('xcentroid', 'ycentroid', 'fwhm', 'pa',")],
+    ))
+    # DAOStarFinder: the same rule over its own columns, except that the flux column (infinite
+    # when the effective threshold is 0) is not tested in that case
+    dcols = ('xcentroid', 'ycentroid', 'hx', 'hy', 'sharpness', 'roundness1', 'roundness2', 'peak',
+             'flux')
+    drec = '_DAOStarFinderCatalog@finite'
+    reg.record('_DAOStarFinderCatalog', {})
+    fields = {c: ('arr', 1, 'real', 'nonfinite') for c in dcols}
+    fields['threshold_eff'] = 'real'
+    reg.record(drec, fields, bases=('_DAOStarFinderCatalog',))
+    reg.add(Contract(
+        target='photutils/detection/daofinder.py::_DAOStarFinderCatalog.__len__', props=['C14'],
+        kind='method', params={'self': drec}, ensures=[('rows', f'result == {n}')],
+        returns='nat', assumed=True,
+        note='len(catalog) is the number of rows (all column arrays have that length)',
+    ))
+    reg.add(Contract(
+        target='photutils/detection/daofinder.py::_DAOStarFinderCatalog.apply_filters',
+        props=['C14'], kind='method', tag='finite-rows', block=('attrs', 'mask', 1),
+        params={'self': drec},
+        requires=[f'self.{c}.shape[0] == {n}' for c in dcols],
+        ensures=[('one-flag-per-row', f'mask.shape == ({n},)'),
+                 ('kept-iff-every-reported-column-is-finite',
+                  'forall(lambda k: iff(mask[k], '
+                  + ' and '.join(f'isfinite_at(self.{c}, k)' for c in dcols[:-1])
+                  + f' and (self.threshold_eff == 0 or isfinite_at(self.flux, k))), (0, {n}))')],
+        mutants=[("'roundness1', 'roundness2', 'peak', 'flux')", "'roundness1', 'roundness2', 'flux')"),
+                 ("if self.threshold_eff == 0 and attr == 'flux':", "if attr == 'flux':"),
+                 ("if self.threshold_eff == 0 and attr == 'flux':", "if self.threshold_eff == 0 and attr == 'peak':")],
+    ))
+
